@@ -44,12 +44,12 @@ CORR_HEADER = ("From Coq Require Import ZArith QArith List String.\n"
                "From ACN Require Import Base.Num Model.Pilots.\nImport ListNotations.\n"
                "Open Scope string_scope.\nOpen Scope Z_scope.\nOpen Scope Q_scope.\n")
 CHECK_FN = "check_c04"
-RULE = ("stream run: 6 fixed corpus scenarios (incl. the witness of the defect fixed in afd41a2 and rejected schedules with store_schedule_history=True), then 0-5 EVSEs "
+RULE = ("stream run: 7 fixed corpus scenarios (incl. the witness of the defect fixed in afd41a2 and rejected schedules with store_schedule_history=True), then 0-5 EVSEs "
         "(wide range or default) registered in shuffled order under one of five naming styles (zero-padded, S-9/S-10, "
         "mixed case, numeric-looking, falsy '' and '0'), heterogeneous voltages, period in {1,5,7,0.5,2.5}, random "
         "non-overlapping sessions + Recompute events over a horizon of 1-30 periods, max_recompute in {None,0,1,2,3,5}, store_schedule_history on in half of the runs (schedule_history is an observable: periods compared with the model, contents by the monitor); "
         "at every scheduler call a scripted submission: random subset of stations in shuffled dict order, length 1-12 / "
-        "up to the horizon / beyond it / long in the queue-draining period / all-zero / constant, empty dict, rows as "
+        "up to the horizon / beyond it / long in the queue-draining period / all-zero / constant / with float('inf') entries on EVSEs with the default max_rate=inf (any station in the direct-call streams), empty dict, rows as "
         "int / float / numpy.float64 / float32 lists, tuples, numpy arrays (float64, float16, int64, int32) or mixed, "
         "occasionally an unknown station or ragged rows (incl. length-1 rows after long ones).  Variants (fractions of the "
         "budget): the scheduler mutates / reuses the objects it returned earlier; the scheduler raises an Exception or "
@@ -77,6 +77,26 @@ TRUSTED_EXTRA = ["numpy block assignment a[:, lo:hi] = M and np.array densificat
                  "(validated by the correspondence only)"]
 F = fractions.Fraction
 BIG = 1e9
+INF = float("inf")
+_core_q = q
+INF_Q = "INFQ"      # Model/Pilots.v: 2^1100; stands for float('inf') in the Q instance (values are only copied, never computed)
+
+
+def q(x):  # noqa: F811
+    """exact rational literal; +inf (a legal pilot on an EVSE with the default max_rate=inf) is a reserved rational
+    larger than every double"""
+    x = float(x)
+    if x == INF:
+        return INF_Q
+    return _core_q(x)
+
+
+_INF_OK = set()      # station names that may be given an infinite pilot in the scenario being generated
+
+
+def set_inf_ok(names):
+    global _INF_OK
+    _INF_OK = set(names)
 ROOT = os.path.dirname(os.path.dirname(os.path.abspath(__file__)))
 
 
@@ -248,6 +268,11 @@ def rand_submission(rng, station_nums, it, width, drained, malformed=None):
             vals = [0.0] * length
         elif flavour < 0.16:
             vals = [rng.choice([6.0, 16.0, 32.0])] * length
+        if name_of(n) in _INF_OK and kind not in ("int", "intarray", "int32array") and vals and rng.random() < 0.3:
+            vals = list(vals)
+            for j in range(len(vals)):
+                if rng.random() < 0.5:
+                    vals[j] = INF                   # unbounded EVSE: "as much as you can"
         sub.append(dict(station=name_of(n), kind=kind, vals=vals))
     if malformed in ("unknown", "both") or (not station_nums and malformed is None and rng.random() < 0.4):
         kind = rng.choice(KINDS)
@@ -427,6 +452,7 @@ def run_sim(inp, provider, alg=None, on_call=None):
     provider(call_index, it, width, drained) -> json-able submission.  Returns the recorded behaviour."""
     from acnportal.acnsim import Simulator
     set_names(inp.get("names"))
+    set_inf_ok([name_of(n) for n, d in zip(inp["stations"], inp.get("default_evse") or []) if d])
     resume = inp.get("resume") or {}
     use_json = any(resume.get("json", []))
     calls, rec, charges, sim_ref = [], [], [], [None]
@@ -554,7 +580,7 @@ def rand_run_input(rng):
                 max_recompute=rng.choice([None, None, None, 0, 1, 2, 3, 5]), constraints=rand_constraints(rng, pool),
                 period=rng.choice([5, 5, 1, 7, 0.5, 2.5]),
                 voltages=[rng.choice([120, 208, 240, 277.5]) for _ in pool],
-                default_evse=[rng.random() < 0.2 for _ in pool],
+                default_evse=[rng.random() < 0.35 for _ in pool],
                 mutate_prev=rng.choice([0, 0, 1, 1, 2]), store_history=rng.random() < 0.5)
 
 
@@ -677,6 +703,10 @@ CORPUS = [
     dict(stations=[1, 2], names=_names([1, 2]), sessions=[dict(station=1, arrival=0, departure=9, energy=5)],
          recomputes=[1, 2], max_recompute=None, constraints=[], store_history=True,
          script=[[_row(1, [10, 10, 10, 10])], [], [_row(1, [20, 20, 20]), _row(2, [5, 5])]]),
+    # an EVSE with the default max_rate=inf accepts the pilot inf (what UncontrolledCharging submits there)
+    dict(stations=[5, 6], names=_names([5, 6]), sessions=[dict(station=5, arrival=0, departure=3, energy=5)],
+         recomputes=[1], max_recompute=None, constraints=[], default_evse=[True, True], store_history=True,
+         script=[[_row(5, [INF, 16, INF]), _row(6, [INF, INF, INF], "np64")], [_row(6, [0.5, INF], "array")], []]),
 ]
 
 
@@ -896,6 +926,7 @@ def rand_upd_input(rng):
     pool = rand_pool(rng, n)
     names = rand_names(rng, pool)
     set_names(names)
+    set_inf_ok([name_of(n) for n in pool])
     it = rng.choice([0, 0, 1, 2, rng.randint(0, 20)])
     width = rng.choice([it, it + 1, it + 1, it + rng.randint(1, 14), it + rng.randint(1, 14),
                         max(1, it - rng.randint(1, 3))])     # width == it: nothing allocated ahead; < it: not reachable by run()
@@ -956,6 +987,7 @@ def run_seq(inp, ops=None):
     from acnportal.acnsim.network import Current
     from acnportal.acnsim.simulator import _increase_width
     set_names(inp.get("names"))
+    set_inf_ok([name_of(n) for n in inp["stations"]])
     r = random.Random(inp["op_seed"])
     sims = []
     shared = None
